@@ -166,6 +166,15 @@ def run_scenario(spec, scn):
         # oracles that need several executions (differentials) own the loop
         return ora.run(scn, H, execu)
     vs, st = ora.check(scn, H)
+    # later phases (same objects re-mated / re-routed, new powertrain)
+    cur_scn, cur_H = scn, H
+    while cur_H.get('next') is not None and cur_scn.get('next'):
+        from .execu import next_phase
+        cur_scn, cur_H = next_phase(cur_scn), cur_H['next']
+        vs2, st2 = ora.check(cur_scn, cur_H)
+        vs = vs + vs2
+        st.update(st2)
+        st['later_phases'] += 1
     return H, vs, st
 
 
